@@ -218,6 +218,9 @@ func (p *c04) Init(tier string) {
 		map[string]any{"rid": 2.0, "k": "", "s": "1:a", "b": 1.0, "m": 1.0},
 		map[string]any{"rid": 3.0, "k": "x", "s": "y|z", "b": 1.0, "m": 1.0},
 	})
+	bl, br := c04BigKeys()
+	p.left = append(p.left, bl)
+	p.right = append(p.right, br)
 	p.right = append(p.right, []any{
 		map[string]any{"rid": 0.0, "k": "a", "s": "b", "b": 52.5200072, "m": 0.3},
 		map[string]any{"rid": 1.0, "k": "b", "s": "-b", "b": 52.5200071, "m": 0.30000000000000004},
@@ -226,6 +229,24 @@ func (p *c04) Init(tier string) {
 }
 
 func (p *c04) NumCases() int { return len(p.cases) }
+
+// c04BigKeys: 64-bit integer keys beyond 2^53 that differ by less than the spacing of doubles at
+// that magnitude (a key rendered or hashed through float64 merges them; Compare tells them apart).
+func c04BigKeys() (l, r []any) {
+	const B = int64(1) << 60
+	l = []any{
+		map[string]any{"id": 0.0, "k": "a", "s": "b", "z": B + 1, "a": B + 1},
+		map[string]any{"id": 1.0, "k": "b", "s": "b", "z": B + 2, "a": B + 3},
+		map[string]any{"id": 2.0, "k": "a", "s": "-b", "z": B + 3, "a": B + 2},
+		map[string]any{"id": 3.0, "k": "c", "s": "c", "z": B + 2, "a": B + 130},
+	}
+	r = []any{
+		map[string]any{"rid": 0.0, "k": "a", "s": "b", "b": B + 2, "m": B + 2},
+		map[string]any{"rid": 1.0, "k": "b", "s": "-b", "b": B + 1, "m": B + 1},
+		map[string]any{"rid": 2.0, "k": "a", "s": "b", "b": B + 4, "m": B + 129},
+	}
+	return
+}
 
 func c04OnSQL(e Expr) string {
 	switch e := e.(type) {
